@@ -408,6 +408,7 @@ func (f *flow) Start(ctx context.Context) {
 							f.tracer.Send(FlowTrace{
 								Source: source,
 								Flows:  effectiveFlows,
+								Origin: f.Id(),
 							})
 							for _, handle := range flowHandlers {
 								handle(ctx)
